@@ -106,6 +106,29 @@ NEEDS = {
     "C17-H": "host code that hands objects back with ObjectGcGuard::into_inner, repeated runs without clear",
     "C18-G": "a failing callee that created a closure over one of its locals and stored it in a global, a host that swallows the failure, the escaped closure called later",
     "C18-H": "a non-nil argument that does not convert, passed to an optional (Nilable) parameter of a host function",
+    # fifth round (ids I / J): the agents were told all ideas of the earlier rounds
+    "C02-I": "a table used as a key and changed after the insert, a heap value reachable only through that entry, a collection while the key is in its changed state, the key changed back and the value read (re-introduces defect 3567d18 through method resolution)",
+    "C02-J": "min_by_key / max_by_key with a key function returning fresh objects, a row that does not improve on the best followed by another row, a collection during that later callback",
+    "C03-I": "a for-each over a table with at least as many rows as the budget left, left early (return in the body, std.any), a budget between the real instruction count and the row count",
+    "C03-J": "to_array / sorted / min / max on a table with more rows than the budget left at that moment (counter underflows: panic in debug, unbounded run in release)",
+    "C04-I": "a for-each that begins when the value stack has at most two usable slots left (recursion depth 125 on the default VM, or a small configured stack)",
+    "C04-J": "an import of a MODULE with more super segments than the importing module has parents, used through a dotted call (the function-import form keeps its check)",
+    "C05-I": "one guard alive across two collections with the guarded object not otherwise reachable at the second one",
+    "C05-J": "a collection that leaves more than half the limit reachable (threshold above the limit) followed by garbage churn; or set_memory_limit to under a quarter of the old limit",
+    "C07-I": "a string or real key whose 32-bit key hash equals hash(-1) (one in 2^32) plus a script read of t[-1]",
+    "C07-J": "host-side remove of an entry with at least two younger entries, then an order-sensitive read",
+    "C09-I": "an Integer and a Real with the same integer part but different value meeting in a deciding comparison of min / max / sorted",
+    "C09-J": "std.map with a callback returning a fresh object, a row whose insert grows the result table, the collection threshold crossed exactly inside that growth allocation",
+    "C12-I": "two distinct keys with equal full 32-bit hashes, one stored in its home bucket, the other absent, asked through contains()",
+    "C12-J": "entry().or_insert_with() of a new key that crosses the load factor, the new key's home bucket in the grown table already occupied",
+    "C13-I": "reserve(small n) on a table that already holds entries with count + n above the load factor (e.g. 11 inserts then reserve(1))",
+    "C13-J": "a capacity request that does not come from grow() with a particular bit pattern: reserve(n) with count + n = 304, 607, 608, 758, 910, ...",
+    "C15-I": "a runtime error raised while more than 31 calls are active and a look at the outer end of the trace",
+    "C15-J": "an OutOfMemory raised at call depth >= 1 (the call chain is missing from its trace)",
+    "C17-I": "a run ending in OutOfMemory exactly at the header of a string whose buffer was just granted, then clear, then a program whose peak is within the leaked amount of the limit (or the counters, or many repetitions)",
+    "C17-J": "an earlier run that created no heap object at all but left globals or stack values behind, then clear, then a program reading a global it never assigned or needing the whole value stack",
+    "C18-I": "a host function that re-enters a script which calls the SAME registered host function again while the outer activation is running",
+    "C18-J": "a three-parameter typed native, an object argument with no other reference, a collection during the call, the native using the argument afterwards",
 }
 
 confirm = {}
